@@ -81,13 +81,17 @@ fn timestamp() -> tendermint::Time {
 }
 
 fn vote_bytes(height: u32, hash: Option<[u8; 32]>) -> Vec<u8> {
+    vote_bytes_c(CHAIN_ID, height, hash)
+}
+
+fn vote_bytes_c(chain: &str, height: u32, hash: Option<[u8; 32]>) -> Vec<u8> {
     let canonical_vote = tendermint::vote::CanonicalVote {
         vote_type: tendermint::vote::Type::Precommit,
         height: height.into(),
         round: 0u16.into(),
         block_id: hash.map(block_id),
         timestamp: Some(timestamp()),
-        chain_id: CHAIN_ID.try_into().unwrap(),
+        chain_id: chain.try_into().unwrap(),
     };
     tendermint_proto::types::CanonicalVote::from(canonical_vote).encode_length_delimited_to_vec()
 }
@@ -234,13 +238,17 @@ fn rollup_id_other() -> RollupId {
 }
 
 fn signed_header(height: u32, commit: Commit) -> tendermint::block::signed_header::SignedHeader {
+    signed_header_c(CHAIN_ID, height, commit)
+}
+
+fn signed_header_c(chain: &str, height: u32, commit: Commit) -> tendermint::block::signed_header::SignedHeader {
     tendermint::block::signed_header::SignedHeader::new(
         tendermint::block::Header {
             version: tendermint::block::header::Version {
                 block: 1,
                 app: 1,
             },
-            chain_id: CHAIN_ID.try_into().unwrap(),
+            chain_id: chain.try_into().unwrap(),
             height: height.into(),
             time: timestamp(),
             last_block_id: None,
@@ -260,6 +268,10 @@ fn signed_header(height: u32, commit: Commit) -> tendermint::block::signed_heade
 }
 
 async fn mount(server: &wiremock::MockServer, height: u32, commit: Commit, vals: validators::Response) {
+    mount_c(CHAIN_ID, server, height, commit, vals).await;
+}
+
+async fn mount_c(chain: &str, server: &wiremock::MockServer, height: u32, commit: Commit, vals: validators::Response) {
     use wiremock::{
         matchers::body_partial_json,
         Mock,
@@ -269,7 +281,7 @@ async fn mount(server: &wiremock::MockServer, height: u32, commit: Commit, vals:
         .respond_with(ResponseTemplate::new(200).set_body_json(tendermint_rpc::response::Wrapper::new_with_id(
             tendermint_rpc::Id::uuid_v4(),
             Some(tendermint_rpc::endpoint::commit::Response {
-                signed_header: signed_header(height, commit),
+                signed_header: signed_header_c(chain, height, commit),
                 canonical: true,
             }),
             None,
@@ -435,13 +447,13 @@ async fn pipeline_cases() {
 // C12 / C07: what the relayer published, decoded by the conductor's own pipeline
 
 /// A commit on (height, hash) signed by all three validators.
-fn full_commit(height: u32, hash: [u8; 32]) -> Commit {
+fn full_commit(chain: &str, height: u32, hash: [u8; 32]) -> Commit {
     let signatures = (1..=3usize)
         .map(|v| CommitSig::BlockIdFlagCommit {
             validator_address: info(v, 1).address,
             timestamp: timestamp(),
             signature: Some(
-                key(v).sign(&vote_bytes(height, Some(hash))).to_bytes().as_ref().try_into().unwrap(),
+                key(v).sign(&vote_bytes_c(chain, height, Some(hash))).to_bytes().as_ref().try_into().unwrap(),
             ),
         })
         .collect();
@@ -462,21 +474,35 @@ async fn decode_submissions() {
     use sha2::Digest as _;
     let cases = io::read_cases();
     let mut out = io::Writer::open();
-    let server = wiremock::MockServer::start().await;
-    let mut mounted = std::collections::HashSet::new();
-    let client = sequencer_client::HttpClient::new(server.uri().as_str()).unwrap();
-    let (_tx, state_rx) = crate::state::channel(crate::test_utils::make_rollup_state(
-        "verif".to_string(),
-        crate::test_utils::make_execution_session_parameters(),
-        crate::test_utils::make_commitment_state(),
-    ));
-    let seq_ns = astria_core::celestia::namespace_v0_from_sha256_of_bytes(CHAIN_ID.as_bytes());
+    // one CometBFT mock and one tracked rollup state per (chain id, first sequencer height)
+    let mut envs: HashMap<(String, u64), (wiremock::MockServer, crate::state::StateReceiver, std::collections::HashSet<(u32, [u8; 32])>)> =
+        HashMap::new();
     for c in &cases {
+        let chain = c["chain"].as_str().unwrap_or(CHAIN_ID).to_string();
+        let seq_start = c["seq_start"].as_u64().unwrap_or(10);
+        if !envs.contains_key(&(chain.clone(), seq_start)) {
+            let server = wiremock::MockServer::start().await;
+            let mut params = crate::test_utils::make_execution_session_parameters();
+            params.sequencer_start_block_height = seq_start;
+            params.sequencer_chain_id = chain.clone();
+            let (tx, rx) = crate::state::channel(crate::test_utils::make_rollup_state(
+                "verif".to_string(),
+                params,
+                crate::test_utils::make_commitment_state(),
+            ));
+            // the receiver must outlive the sender for `borrow` to keep working; leak the sender
+            std::mem::forget(tx);
+            envs.insert((chain.clone(), seq_start), (server, rx, std::collections::HashSet::new()));
+        }
+        let (server, state_rx, mounted) = envs.get_mut(&(chain.clone(), seq_start)).unwrap();
+        let state_rx = state_rx.clone();
+        let client = sequencer_client::HttpClient::new(server.uri().as_str()).unwrap();
+        let seq_ns = astria_core::celestia::namespace_v0_from_sha256_of_bytes(chain.as_bytes());
         for b in c["blocks"].as_array().unwrap() {
             let h = b["chain_height"].as_u64().unwrap() as u32;
             let hash: [u8; 32] = hex::decode(b["hash"].as_str().unwrap()).unwrap().try_into().unwrap();
             if mounted.insert((h, hash)) {
-                mount(&server, h, full_commit(h, hash), make_validators(&vec![1; 3], h)).await;
+                mount_c(&chain, server, h, full_commit(&chain, h, hash), make_validators(&vec![1; 3], h)).await;
             }
         }
         let rid = RollupId::new([c["rollup"].as_u64().unwrap() as u8; 32]);
@@ -489,7 +515,10 @@ async fn decode_submissions() {
             for b in sub["blobs"].as_array().unwrap() {
                 let id = hex::decode(b["ns"].as_str().unwrap()).unwrap();
                 let ns = celestia_types::nmt::Namespace::new_v0(&id).unwrap();
-                let data = std::fs::read(b["file"].as_str().unwrap()).unwrap();
+                let mut data = std::fs::read(b["file"].as_str().unwrap()).unwrap();
+                if b["plain"].as_bool().unwrap_or(false) {
+                    data = astria_core::brotli::compress_bytes(&data).unwrap();
+                }
                 // the reader fetches by namespace: it only ever sees these two
                 if ns == seq_ns {
                     header_blobs.push(blob(ns, data));
